@@ -676,3 +676,182 @@ Lemma lookup_by_second_filing_refuted :
   sd_lookup false (sd_exec ex_sdb [SUpd ex_tree (VBool true)]) ex_sid ex_tree = Some (VBool true)
   /\ sd_lookup false (sd_exec (sd_load (sd_dump ex_sdb)) [SUpd ex_tree (VBool true)]) ex_sid ex_tree = Some (VBool false).
 Proof. split; vm_compute; reflexivity. Qed.
+
+(* ------------------------------------------------------------------ operations after a restore *)
+(* every later sequence of operations that read and write exported attributes only is answered by the restored instance
+   as by the original *)
+Lemma run_steps_agree {R : Type} t sp (steps : list (fields -> fields * R)) :
+  Forall (op_exported t sp) steps -> forall o o', agree_on t sp o o' -> run_steps steps o' = run_steps steps o.
+Proof.
+  induction 1 as [|f r Hf _ IH]; intros o o' A; [reflexivity|].
+  cbn [run_steps]. destruct (Hf o o' A) as [E A']. destruct (f o) as [o1 x], (f o') as [o1' x']. cbn in E, A'.
+  rewrite E. f_equal. now apply IH.
+Qed.
+
+Theorem restore_equiv_history {R : Type} t sp o o0 (steps : list (fields -> fields * R)) :
+  nodup_keys t = true -> obj_ok t sp o o0 = true -> Forall (op_exported t sp) steps ->
+  exists D o', dump_fields t sp o = Ok D /\ load_fields t sp o0 D = Ok o' /\ run_steps steps o' = run_steps steps o.
+Proof.
+  intros N G F. destruct (obj_roundtrip t sp o o0 N G) as (D & o' & HD & HL & A & _).
+  exists D, o'. split; [exact HD|]. split; [exact HL|]. apply (run_steps_agree t sp steps F). exact A.
+Qed.
+
+(* a read of ONE attribute: covered iff the attribute is in the table *)
+Definition read_attr (a : pystr) : fields -> fields * option pyval := fun o => (o, getattr a o).
+Lemma read_exported t sp a ty : In (a, ty) t -> str_in a sp = false -> op_exported t sp (read_attr a).
+Proof. intros I S o o' A. split; [exact (A a ty I S)|exact A]. Qed.
+
+(* ... and the premise is necessary: an attribute outside the table (an index kept next to the exported state) is what
+   the fresh instance has, not what the original had *)
+Definition ex_idx : pystr := [95;105;100;120]%N.                                   (* "_idx" *)
+Definition ex_tab : list (pystr * ptype) := [(s__db, PNone); (s__map, PNone)].
+Definition ex_live : fields :=
+  [(s__db, VDict [([115]%N, VDict [])]); (s__map, VDict [([110]%N, VStr [115]%N)]); (ex_idx, VDict [([115]%N, VList [VStr [110]%N])])].
+Definition ex_fresh_obj : fields := [(s__db, VDict []); (s__map, VDict []); (ex_idx, VDict [])].
+Lemma restore_nonexported_refuted :
+  nodup_keys ex_tab = true /\ obj_ok ex_tab [] ex_live ex_fresh_obj = true /\
+  exists D o', dump_fields ex_tab [] ex_live = Ok D /\ load_fields ex_tab [] ex_fresh_obj D = Ok o' /\
+               run_steps [read_attr s__map; read_attr ex_idx] ex_live
+                 = [Some (VDict [([110]%N, VStr [115]%N)]); Some (VDict [([115]%N, VList [VStr [110]%N])])] /\
+               run_steps [read_attr s__map; read_attr ex_idx] o'
+                 = [Some (VDict [([110]%N, VStr [115]%N)]); Some (VDict [])].
+Proof.
+  split; [reflexivity|]. split; [reflexivity|]. eexists. eexists.
+  split; [vm_compute; reflexivity|]. split; [vm_compute; reflexivity|]. split; vm_compute; reflexivity.
+Qed.
+
+(* ------------------------------------------------------------------ the relying party's state store *)
+Lemma strs_of_map m : strs_of (map (fun p : pystr * pystr => (fst p, VStr (snd p))) m) = Some m.
+Proof. induction m as [|[k s] r IH]; [reflexivity|]. cbn. now rewrite IH. Qed.
+
+(* with both attributes in the table, export -> import into Current() gives the store back *)
+Theorem cur_restore_id t c : t = [(s__db, PNone); (s__map, PNone)] -> cur_restore t c = Ok c.
+Proof.
+  intros ->. destruct c as [db m]. unfold cur_restore. cbn.
+  unfold cur_of_fields. cbn. rewrite strs_of_map. reflexivity.
+Qed.
+
+Lemma cur_run_app t ops1 : forall c ops2,
+  cur_run t c (ops1 ++ ops2) = cur_run t c ops1 ++ cur_run t (cur_exec t c ops1) ops2.
+Proof.
+  induction ops1 as [|o r IH]; intros c ops2; [reflexivity|].
+  cbn [app cur_run cur_exec]. destruct (cur_step t c o) as [c' x]. cbn [fst]. now rewrite IH.
+Qed.
+
+(* a restore at ANY point of ANY history of calls changes no later answer (every prefix is a crash point; the history
+   after it may remove states, re-bind keys, look keys up, export and import again) *)
+Theorem cur_restore_anywhere t c ops1 ops2 : t = [(s__db, PNone); (s__map, PNone)] ->
+  cur_run t c (ops1 ++ CRestore :: ops2) = cur_run t c ops1 ++ CUnit :: cur_run t (cur_exec t c ops1) ops2.
+Proof.
+  intros T. rewrite cur_run_app. f_equal. cbn [cur_run cur_step]. now rewrite (cur_restore_id t _ T).
+Qed.
+
+(* the variant with an index that is not exported: same answers while the instance lives, different ones after a restore *)
+Definition ex_st : pystr := [115]%N.
+Definition ex_n : pystr := [110]%N.
+Definition ex_sub : pystr := [117]%N.
+Definition ex_hist : list cop := [CSet ex_st [(s_nonce, VStr ex_n)]; CBind ex_n ex_st; CBind ex_sub ex_st].
+Definition ex_after : list cop := [CRemove ex_st; CBase ex_sub; CBase ex_n; CSnap].
+Lemma curi_restore_refuted :
+  curi_run ex_tab curi_empty (ex_hist ++ ex_after) = cur_run ex_tab cur_empty (ex_hist ++ ex_after)
+  /\ cur_run ex_tab cur_empty (ex_hist ++ CRestore :: ex_after)
+     = [CUnit; CUnit; CUnit; CUnit; CUnit; CErrR KeyError; CErrR KeyError; CStateR [] []]
+  /\ curi_run ex_tab curi_empty (ex_hist ++ CRestore :: ex_after)
+     = [CUnit; CUnit; CUnit; CUnit; CUnit; CStrR ex_st; CStrR ex_st; CStateR [] [(ex_n, ex_st); (ex_sub, ex_st)]].
+Proof. split; [|split]; vm_compute; reflexivity. Qed.
+
+(* while the instance LIVES the index is only a shortcut: every key bound to a state is listed under it, so walking the
+   list removes what walking the whole map removes - no history without a restore tells the two stores apart *)
+Definition idx_inv (ci : curi) : Prop :=
+  forall k st, In (k, st) (c_map (i_cur ci)) -> In k (bound_of (i_bound ci) st).
+Definition no_restore (o : cop) : bool := match o with CRestore => false | _ => true end.
+
+Lemma in_aset {V} k (v : V) d p : In p (aset k v d) -> p = (k, v) \/ In p d.
+Proof.
+  induction d as [|[k' v'] r IH]; cbn; [intros [H|[]]; auto|].
+  destruct (str_eqb k k') eqn:E; cbn.
+  - apply str_eqb_eq in E. subst k'. intros [H|H]; auto.
+  - intros [H|H]; auto. destruct (IH H); auto.
+Qed.
+Lemma assoc_adel_other {V} k k' (d : list (pystr * V)) : k <> k' -> assoc k' (adel k d) = assoc k' d.
+Proof.
+  intros Hne. induction d as [|[k2 v2] r IH]; [reflexivity|]. cbn.
+  destruct (str_eqb k k2) eqn:E.
+  - apply str_eqb_eq in E. subst k2.
+    assert (str_eqb k' k = false) as -> by (apply str_eqb_neq; congruence). reflexivity.
+  - cbn. destruct (str_eqb k' k2); auto.
+Qed.
+
+Lemma curi_step_live t ci o : idx_inv ci -> no_restore o = true ->
+  i_cur (fst (curi_step t ci o)) = fst (cur_step t (i_cur ci) o)
+  /\ snd (curi_step t ci o) = snd (cur_step t (i_cur ci) o)
+  /\ idx_inv (fst (curi_step t ci o)).
+Proof.
+  intros I NR. destruct ci as [c b]. destruct o; try discriminate; cbn [i_cur i_bound] in *.
+  - (* CSet *) cbn. split; [reflexivity|split; [reflexivity|]]. exact I.
+  - (* CUpd *) unfold curi_step; cbn [i_cur i_bound]. destruct (cur_step t c (CUpd k v)) as [c' x] eqn:E. cbn [fst snd i_cur].
+    split; [reflexivity|split; [reflexivity|]]. intros k0 st H. cbn [i_cur i_bound]. apply I. cbn [i_cur].
+    cbn in E. destruct (assoc k (c_db c)) as [[| | | | |r|]|]; inversion E; subst; exact H.
+  - (* CBind *) unfold curi_step; cbn [i_cur i_bound]. destruct (cur_step t c (CBind fro to)) as [c' x] eqn:E.
+    cbn in E. destruct (match assoc fro (c_map c) with Some old => _ | None => false end).
+    + inversion E; subst. cbn. split; [reflexivity|split; [reflexivity|]]. exact I.
+    + inversion E; subst. cbn [fst snd i_cur i_bound]. split; [reflexivity|split; [reflexivity|]].
+      intros k st H. cbn [c_map i_cur i_bound] in *. unfold bound_of. apply in_aset in H as [H|H].
+      * inversion H; subst. rewrite assoc_aset_same. apply in_or_app. right. now left.
+      * destruct (str_eqb to st) eqn:Es.
+        -- apply str_eqb_eq in Es. subst st. rewrite assoc_aset_same. apply in_or_app. left. exact (I k to H).
+        -- rewrite assoc_aset_other by (now apply str_eqb_false_ne). exact (I k st H).
+  - (* CRemove *) cbn. destruct (has_key k (c_db c)); cbn [fst snd i_cur i_bound]; [|split; [reflexivity|split; [reflexivity|exact I]]].
+    assert (filter (fun p : pystr * pystr => negb (str_in (fst p) (bound_of b k) && str_eqb (snd p) k)) (c_map c)
+            = filter (fun p => negb (str_eqb (snd p) k)) (c_map c)) as EQ.
+    { apply filter_ext_in. intros [k0 st] Hin. cbn [fst snd]. destruct (str_eqb st k) eqn:Es; [|now rewrite andb_false_r].
+      apply str_eqb_eq in Es. subst st. assert (str_in k0 (bound_of b k) = true) as -> by (apply str_in_In; exact (I k0 k Hin)).
+      reflexivity. }
+    rewrite EQ. split; [reflexivity|split; [reflexivity|]]. intros k0 st H. cbn [i_cur i_bound c_map] in *.
+    apply filter_In in H as [Hin Hne]. cbn [snd] in Hne. apply negb_true_iff in Hne.
+    unfold bound_of. rewrite assoc_adel_other; [exact (I k0 st Hin)|].
+    intros ->. now rewrite str_eqb_refl in Hne.
+  - (* CBase *) cbn. split; [reflexivity|split; [reflexivity|]]. exact I.
+  - (* CGet *) cbn. split; [reflexivity|split; [reflexivity|]]. exact I.
+  - (* CKeys *) cbn. split; [reflexivity|split; [reflexivity|]]. exact I.
+  - (* CSnap *) cbn. split; [reflexivity|split; [reflexivity|]]. exact I.
+Qed.
+
+Theorem curi_live_agrees t ops : forallb no_restore ops = true ->
+  forall ci, idx_inv ci -> curi_run t ci ops = cur_run t (i_cur ci) ops.
+Proof.
+  induction ops as [|o r IH]; intros NR ci I; [reflexivity|].
+  cbn [forallb] in NR. apply andb_true_iff in NR as [No Nr].
+  destruct (curi_step_live t ci o I No) as (E1 & E2 & I').
+  cbn [curi_run cur_run]. destruct (curi_step t ci o) as [ci' x], (cur_step t (i_cur ci) o) as [c' y].
+  cbn [fst snd] in *. subst. f_equal. now apply IH.
+Qed.
+Lemma idx_inv_empty : idx_inv curi_empty.
+Proof. intros k st []. Qed.
+
+(* ------------------------------------------------------------------ what load() never touches *)
+(* an attribute outside the `parameter` table keeps the value of the instance that load() fills - whatever was exported.
+   When that instance is built anew by the import (ImpExp.load_attr constructs attribute objects from their init_args
+   only), everything its constructor would have taken from the configuration is the constructor's default afterwards. *)
+Lemma assoc_aset_ne {V} (a b : pystr) (v : V) d : str_eqb a b = false -> assoc a (aset b v d) = assoc a d.
+Proof. intros E. apply assoc_aset_other. intros ->. now rewrite str_eqb_refl in E. Qed.
+
+Lemma load_fields_frame sp a : forall t o0 D o',
+  has_key a t = false -> load_fields t sp o0 D = Ok o' -> assoc a o' = assoc a o0.
+Proof.
+  induction t as [|[b ty] r IH]; intros o0 D o' H L; cbn in L; [now inversion L|].
+  unfold has_key in H. cbn [assoc] in H. destruct (str_eqb a b) eqn:E; [discriminate|].
+  assert (has_key a r = false) as Hr by exact H.
+  destruct (str_in b sp); [now apply (IH o0 D)|].
+  destruct (assoc b D) as [x|]; [|now apply (IH o0 D)].
+  destruct (load_attr ty x) as [v| |]; cbn in L; try discriminate.
+  rewrite (IH _ D o' Hr L). now apply assoc_aset_ne.
+Qed.
+
+Theorem config_outside_table_lost t sp attrs :
+  forallb (fun a => negb (has_key a t)) attrs = true ->
+  forall a, In a attrs -> forall o0 D o', load_fields t sp o0 D = Ok o' -> assoc a o' = assoc a o0.
+Proof.
+  intros H a Ha o0 D o' L. rewrite forallb_forall in H. specialize (H a Ha). apply negb_true_iff in H.
+  exact (load_fields_frame sp a t o0 D o' H L).
+Qed.
